@@ -17,6 +17,11 @@ from . import rt
 ENCODERS = ("PVL", "ODL", "PDS3", "ISIS")
 
 
+# times with zone offsets and fractions, day-of-year dates, based integers, reals whose repr uses an exponent
+VALUE_SHAPES = ("1d:20:30s0d:d0", "10:2d:30.d5dsd", "2001-01-0dT10:20:30s0d:30", "2001-36dT10:0d:59.dZ", "d.dEsd", "sd#dd#",
+                "0.0000d", "d0000000000000000.0", "dd:30Z", "200d-12-31T00:00:00", "dE1d", "dd#sd#", "20dd-ddd", "s.d")
+
+
 class Stable(Harness):
     prop = "C07"
     alphabet = "ascii"
@@ -27,6 +32,9 @@ class Stable(Harness):
 
     @property
     def bounds(self):
+        if self.template == "shaped":
+            return "value of shape %s (d = every digit, s = + or -) as a scalar and inside a sequence, encoder %s" % (
+                self.shape, self.encoder)
         return "template %s with %d symbolic character(s), encoder %s" % (self.template, self.n, self.encoder)
 
     def inputs(self, ctx):
@@ -51,6 +59,11 @@ class Stable(Harness):
                     "width": SymInt(ctx.fresh_int("width", 40, 100))}
         if t in ("empty", "seqUnits", "mixed", "casekeys"):
             return {"x": SymStr([ctx.fresh_char("w%d" % i, ((10, 10), (32, 32))) for i in range(n)])}
+        if t == "shaped":
+            # a value of a fixed shape: d = every digit, s = + or -, the rest literal
+            return {"x": SymStr([ctx.fresh_char("d%d" % i, ((48, 57),)) if ch == "d" else
+                                 (ctx.fresh_char("s%d" % i, ((43, 43), (45, 45))) if ch == "s" else ch)
+                                 for i, ch in enumerate(self.shape)])}
         raise KeyError(t)
 
     def known(self, L, inp):
@@ -74,6 +87,8 @@ class Stable(Harness):
             return 'a = "' + x + '"\nb = 2\nEND\n'
         if t == "unquoted":
             return "a = " + x + "\nb = 2\nEND\n"
+        if t == "shaped":
+            return "t = " + x + "\nu = (1, " + x + ")\nEND\n"
         if t == "leap":
             # HH:MM:60 with symbolic hour/minute digits (n = 4) and optionally a fraction digit (n = 5)
             es = list(x) if isinstance(x, str) else [SymStr((c,)) if not isinstance(c, str) else c for c in x.cs]
@@ -156,6 +171,8 @@ def obligations(tier):
         obs.append(Stable(encoder=e, template="mixed", n=5))
         obs.append(Stable(encoder=e, template="wrapquote", n=2))
         obs.append(Stable(encoder=e, template="casekeys", n=3))
+        for sh in VALUE_SHAPES if not quick else VALUE_SHAPES[:8]:
+            obs.append(Stable(encoder=e, template="shaped", n=0, shape=sh))
     return obs
 
 
